@@ -8,11 +8,15 @@ package main
 // reported problem has severity >= --fail-on. --min-severity (display filter) and duplicate folding do not occur
 // in the decision.
 //@ func actionLint [C05]
-//@   loop 2 invariant failProblems >= 0 && bySeverity != nil
+//@   ghost fo checks.Severity
+//@   after call ParseSeverity#2 set fo = result0
+//@   loop 1 invariant failOn == fo
+//@   loop 2 invariant failProblems >= 0 && bySeverity != nil && failOn == fo
 //@   loop 2 invariant forall k checks.Severity :: visited(k) ==> has(bySeverity, k)
 //@   loop 2 invariant failProblems > 0 <==> (exists k checks.Severity :: visited(k) && k >= failOn)
+// the threshold that decides the exit status is the parsed --fail-on value itself (fo), whatever --min-severity is
 //@   at return@after-loop2 assert (result != nil) <==>
-//@        (exists i int :: 0 <= i && i < len(summary.reports) && summary.reports[i].Problem.Severity >= failOn)
+//@        (exists i int :: 0 <= i && i < len(summary.reports) && summary.reports[i].Problem.Severity >= fo)
 
 // pint ci: same decision with the threshold parsed from --fail-on; reporting happens after the decision and can
 // only add an error, never remove one.
